@@ -156,6 +156,9 @@ func getContourPoints(sg tables.SimpleGlyph) []contourPoint {
 
 	points := make([]contourPoint, len(sg.Points))
 	for _, end := range sg.EndPtsOfContours {
+		if int(end) >= len(points) { // invalid font: the end points are not sorted
+			continue
+		}
 		points[end].isEndPoint = true
 	}
 	for i, p := range sg.Points {
@@ -194,6 +197,9 @@ func (f *Face) getGlyfPoints(gid tables.GlyphID, computeExtents bool) (ext Glyph
 	}
 	var allPoints []contourPoint
 	f.getPointsForGlyph(gid, 0, &allPoints)
+	if len(allPoints) < phantomCount { // invalid composite glyph (bad component or nesting too deep)
+		return
+	}
 
 	copy(ph[:], allPoints[len(allPoints)-phantomCount:])
 
